@@ -443,6 +443,42 @@ example :
     (s2.queues.map fun e => e.2.length) = [2] ∧ ((replyCp { s2 with cached := true } 0 .e400).1.down.length = 2) := by
   decide
 
+/-! ### 438 Stale Nonce is a re-authentication round, never an answer -/
+
+theorem sendCreatePermission_down (s : St) (p : Nat) :
+    ∃ a d, (sendCreatePermission s p).2.2 = Down.cp s.cpReqs.length p a :: d := by
+  unfold sendCreatePermission
+  split <;> exact ⟨_, _, rfl⟩
+
+theorem markUsed_length (rs : List Req) (seq : Nat) : (markUsed rs seq).length = rs.length := by
+  simp [markUsed]
+
+/-- **438 never counts as "answered"**: whatever the request carried (REALM or not), a 438 Stale
+    Nonce answer to a live CreatePermission request makes the socket repeat the request for the same
+    peer (a fresh transaction, first thing written), instead of pretending the permission exists
+    (`nice_udp_turn_socket_parse_recv`, `code == STUN_ERROR_STALE_NONCE || (401 && other realm)`). -/
+theorem C16_stale_nonce_reauthenticates (s : St) (seq : Nat) (r : Req)
+    (hr : s.cpReqs.find? (·.seq == seq) = some r) (hv : r.valid = true) (hp : s.pendPerms.contains seq = true) :
+    ∃ a d, (replyCp s seq .e438).1.down = Down.cp s.cpReqs.length r.peer a :: d := by
+  obtain ⟨a, d, h⟩ := sendCreatePermission_down
+    { s with cpReqs := markUsed s.cpReqs seq, pendPerms := s.pendPerms.filter (· != seq), cached := true } r.peer
+  refine ⟨a, d, ?_⟩
+  simp only [markUsed_length] at h
+  simp only [replyCp, hr, validates, hv, retryWithAuth]
+  have hp' : seq ∈ s.pendPerms := by simpa using hp
+  simpa [hp'] using h
+
+/-- non-vacuity, and the data stays held: an authenticated request answered 438 → one new request,
+    nothing released, the two payloads still queued; the next success releases both -/
+example :
+    let s0 : St := { compat := .rfc5766, peers := [{ ipv6 := false, addr := [10, 1, 1, 1], port := 1111 }], cached := true }
+    let s1 := (send s0 0 [[1, 2]] false).2
+    let s2 := (send s1 0 [[3]] false).2
+    let r := replyCp s2 0 .e438
+    r.1.down = [Down.cp 1 0 true] ∧ (r.2.queues.map fun e => e.2.length) = [2] ∧ r.2.perms = [] ∧
+      (replyCp r.2 1 .ok).1.down.length = 2 := by
+  decide
+
 /-! ### the receive path and the packet boundary -/
 
 /-- **no relay datagram makes the socket read outside the received packet** (full strength,
